@@ -135,6 +135,11 @@ def correspond(ctx):
             continue
         x, y = data1d(rng, n)
         kw = M.filter_kwargs(e, M.call_kwargs(name, False))
+        if rng.random() < 0.5:
+            vs = M.variants(name, e, False, rng, 1, base=kw)      # a non-default parameter value (optional code paths)
+            if vs and vs[0].get('tol', 1) != 0.0:
+                kw = vs[0]
+                ctx.count('kwargs:variant')
         stack = name == 'collab_pls'
         refs = {}
 
@@ -165,10 +170,15 @@ def correspond(ctx):
             meta = {'method': name, 'two_d': False, 'variant': label}
             try:
                 with np.errstate(all='ignore'):
-                    b, p = call1d(name, xarg, data, kw)
                     rb, rp = ref_for(yref)
             except Exception as ex:
-                report(f'1d:{name}:{label}:raises', f'{name} with {label} input raised {type(ex).__name__}: {ex}', meta)
+                ctx.count('reference-raises')       # the float64 call on the same numbers raises too: nothing to compare
+                continue
+            try:
+                with np.errstate(all='ignore'):
+                    b, p = call1d(name, xarg, data, kw)
+            except Exception as ex:
+                report(f'1d:{name}:{label}:raises', f'{name} with {label} input raised {type(ex).__name__}: {ex} (the reference call returns)', meta)
                 continue
             ctx.case(('1d', name, label), nontrivial=True, sample={'method': name, 'variant': label} if len(ctx.samples) < 3 else None)
             want = np.asarray(rb, dtype=dt if dt is not None else rb.dtype)
@@ -276,6 +286,11 @@ def correspond(ctx):
             continue
         x, z, Y = data2d(rng, m2, n2)
         kw = M.filter_kwargs(e, M.call_kwargs(name, True))
+        if rng.random() < 0.5:
+            vs = M.variants(name, e, True, rng, 1, base=kw)
+            if vs and vs[0].get('tol', 1) != 0.0:
+                kw = vs[0]
+                ctx.count('kwargs:variant')
         stack = name == 'collab_pls'
         d0 = np.array([Y, Y + 1]) if stack else Y
         try:
@@ -303,13 +318,18 @@ def correspond(ctx):
             meta = {'method': name, 'two_d': True, 'variant': label}
             try:
                 with np.errstate(all='ignore'):
-                    b, p = getattr(Baseline2D(xa, za), name)(data, **kw)
                     if yref is Y:
                         wb, wp = rb, rp
                     else:
                         wb, wp = getattr(Baseline2D(x, z), name)(np.array([yref, yref + 1]) if stack else yref, **kw)
             except Exception as ex:
-                report(f'2d:{name}:{label}:raises', f'2-D {name} with {label} input raised {type(ex).__name__}: {ex}', meta)
+                ctx.count('reference-raises')       # the float64 call on the same numbers raises too: nothing to compare
+                continue
+            try:
+                with np.errstate(all='ignore'):
+                    b, p = getattr(Baseline2D(xa, za), name)(data, **kw)
+            except Exception as ex:
+                report(f'2d:{name}:{label}:raises', f'2-D {name} with {label} input raised {type(ex).__name__}: {ex} (the reference call returns)', meta)
                 continue
             ctx.case(('2d', name, label), nontrivial=True, sample={'method': '2-D ' + name, 'variant': label} if len(ctx.samples) < 5 else None)
             want = np.asarray(wb, dtype=dt if dt is not None else wb.dtype)
